@@ -606,11 +606,25 @@ def r6_helpers(ctx):
               "flatten / get_flat / get_triple are row-major (%d facts)" % len(sub.obligations))
 
 
+def r6_flatten_on_dense(ctx):
+    """a spatial output feeding a dense layer is flattened: every spatial layer's forward returns `post.flatten()` exactly on the paths where its
+    `flatten` flag is set, and the pre-activation record is never flattened (C02's R02.5 flatten-flag facts re-run under this property)"""
+    from . import c02
+    sub = type(ctx)(ctx.prop, ctx.facts)
+    sub.guard("R02.5", "composition", c02.r5, sub)
+    mine = [o for o in sub.obligations if o["instance"].startswith("flatten-flag:") or o["status"] == "unestablished"]
+    bad = [o for o in mine if o["status"] != "ok"]
+    for o in bad:
+        ctx.bad("R08.6", "flatten-on-dense:" + o["instance"], o["key"].split("/", 3)[-1], o["where"], o["detail"])
+    ctx.check("R08.6", "flatten-on-dense", not bad and len(mine) >= 3, "flatten-on-dense-broken", "src", "%d spatial layer kinds return post.flatten() iff self.flatten" % len(mine))
+
+
 RULES["R08.6"] = "flat <-> CxHxW transitions: Tensor::flatten / get_flat / get_triple are row-major over (channels, rows, columns); the tensor constructors record the extents of the nesting they are given, in order (R14.2 / R14.3 re-run under this property)"
 
 
 def run(ctx):
     ctx.guard("R08.6", "reshaping-helpers", r6_helpers, ctx)
+    ctx.guard("R08.6", "flatten-on-dense", r6_flatten_on_dense, ctx)
     _old_run(ctx)
     ctx.guard("R08.1", "announced-vs-produced", r1, ctx)
     ctx.guard("R08.2", "gradient-shapes", r2, ctx)
